@@ -131,6 +131,10 @@ type Config struct {
 	CrowdOrder string `json:"crowd_order,omitempty"`
 	// CrowdFinder: in a crowd with CrowdTargets, the index of the call whose target is attainable
 	CrowdFinder int `json:"crowd_finder,omitempty"`
+	// CrowdPrefix: the calls' messages are prefixes of ONE buffer of the caller (call i gets buf[:n+8i], with the rest
+	// of the buffer as spare capacity), the way an append-only log asks for the proof of work of each of its prefixes.
+	// Mine was handed data[:len] to read; the bytes behind it are another call's message.
+	CrowdPrefix bool `json:"crowd_prefix,omitempty"`
 
 	dataCache []byte
 }
@@ -158,6 +162,12 @@ func (c *Config) data() []byte {
 // callData is the payload of call i of a crowd run: the calls mine different messages of the same length.
 func (c *Config) callData(i int) []byte {
 	d := append([]byte{}, c.data()...)
+	if c.CrowdPrefix {
+		for j := 0; j < i*8; j++ {
+			d = append(d, byte(j*13+5)) // the same bytes whatever i is: the messages are prefixes of each other
+		}
+		return d
+	}
 	for j := 0; j < i*c.CrowdLenStep; j++ {
 		d = append(d, byte(j*7+i))
 	}
@@ -485,6 +495,9 @@ func genCrowd(r *rand.Rand, prop string, version int) *Config {
 		c.TargetNote = "crowd finds:one-call-only"
 		c.CrowdLenStep = pick(r, 0, 0, 1, 7, 300)
 		c.CrowdFinder = r.IntN(c.Crowd) // calls start in the order of their index: the finder may be first, last, in between
+		if r.IntN(3) == 0 {
+			c.CrowdPrefix, c.CrowdLenStep, c.CrowdFinder = true, 8, r.IntN(c.Crowd-1) // not the longest: somebody's message lies behind the finder's
+		}
 		z0 := 2 + r.IntN(6)
 		for i := 0; i < c.Crowd; i++ {
 			z, Li := z0, L+i*c.CrowdLenStep
